@@ -43,6 +43,19 @@ void dev_known_once() {
     while (std::getline(ks, k, ',')) { if (k == "all") for (auto id : ALL_K) cfg().known.insert(id); else if (!k.empty()) cfg().known.insert(k); }
 }
 
+// The short command names are documentation of the tree under test: the second column of the command table printed by `tasgrid -help`.
+// (Only consulted where a repair may legitimately change what is advertised; the other names are transcribed in the generator.)
+const std::string &help_text(const char *tool, const std::string &dir) {
+    static std::string h; static bool done = false;
+    if (!done) { done = true; Run r = run_tool({tool, "-help"}, dir); h = r.out + r.err; }
+    return h;
+}
+bool help_advertises_short(const char *tool, const std::string &dir, const std::string &lname, const std::string &sname) {
+    std::istringstream is(help_text(tool, dir)); std::string line;
+    while (std::getline(is, line)) { std::istringstream ls(line); std::string a, b; ls >> a >> b; if (a == "-" + lname) return b == "-" + sname; }
+    return false;
+}
+
 struct Skip {};   // the mirror found the invocation too expensive (point cap): it is not executed at all
 
 struct InFile { std::string name; Mat m; bool binary; int style; };
@@ -377,7 +390,7 @@ struct Script {
         if (fourier && ctx.excl(K_SETCF)) return false;
         int var = s.byte(); int cols = outs * (fourier ? 2 : 1); Mat m; m.rows = np; m.cols = cols;
         for (size_t i = 0; i < (size_t)np * (size_t)cols; i++) m.v.push_back(0.125 * (double)((int)((i * 5 + (size_t)var * 3) % 17) - 8));
-        bool alias = !ctx.excl(K_SCALIAS);
+        bool alias = help_advertises_short(tool.c_str(), dir, "setcoefficients", "sc") && !ctx.excl(K_SCALIAS);   // (a tree that documents the shorthand must honour it)
         Inv v = start("setcoefficients", alias ? "sc" : nullptr); v.writes = true;
         infile(v, "valsfile", "vf", "coeffs", m);
         bool ok = step(v, [&](TasmanianSparseGrid &g, Expect &) {
